@@ -48,3 +48,18 @@ func verifSetClock(t time.Time) {
 	saml.TimeNow = func() time.Time { return t }
 	jwt.TimeFunc = func() time.Time { return t }
 }
+
+type verifRandReader struct {
+	drawn *[]byte
+	calls *int
+}
+
+func (r verifRandReader) Read(p []byte) (int, error) {
+	*r.calls++
+	for i := range p {
+		b := verifNondetByte("rand.byte")
+		p[i] = b
+		*r.drawn = append(*r.drawn, b)
+	}
+	return len(p), nil
+}
